@@ -137,7 +137,7 @@ def plan(tier, seed):
         kinds = c01.BASELINE[lib]
         simple = [k for k in kinds if c01.kind_class(k) in ("int", "float", "bool")]
         t = simple[(seed + 1) % len(simple)]
-        if lib in ("Div", "Mod", "Pow"):
+        if lib in ("Div", "Mod", "Pow") or (lib == "Mul" and t in FLOATS):
             # two solves of a symbolic-by-symbolic division per element: 16-bit and wider operands get no verdict in 900 s
             t = "u8" if "u8" in kinds else ("i8" if "i8" in kinds else t)
         q = "quick" if n % 3 == seed % 3 else "thorough"
